@@ -274,6 +274,9 @@ void pbt_run(const Case& cs, Ctx& ctx) {
   H h; g = &h; h.ctx = &ctx;
   for (int i = 0; i < NT; ++i) h.timer[i] = nullptr; for (int i = 0; i < NCL; ++i) h.client[i] = nullptr; for (int i = 0; i < NLI; ++i) h.listener[i] = nullptr; for (int i = 0; i < NES; ++i) h.est[i] = nullptr;
   { LedgerPause lp; for (const Op& op : cs.ops) { if (op.name.compare(0, 2, "r_") == 0) h.reactions.push_back(&op); else if (op.name == "perm") srv::st().permScript.push_back((unsigned)op.a[0]); } }
+  // the virtual clock must be in force before the Server exists: its constructor and time() read the clock, and a timer whose due
+  // time was taken from the real clock (milliseconds since boot) lies arbitrarily far in the virtual past or future
+  srv::st().active = true;
   Server* server = new Server; h.srvp = server;
   srv::idleHookPtr = idleHook;
   srv::st().active = true;
